@@ -108,8 +108,9 @@ def _coerce_input_batch(batch: pa.RecordBatch, target_schema: pa.Schema) -> pa.R
     - Same field set, different order → reorder via ``select``.
     - Same field names, different types → ``cast`` for type coercion
       (e.g. float32→float64, decimal→double).
-    - Different field set (extras, missing, wrong names) → raise
-      ``TypeError`` with a uniform "Input schema mismatch" message.
+    - Different field set (extras, missing, wrong names, a name occurring
+      twice) → raise ``TypeError`` with a uniform "Input schema mismatch"
+      message.
 
     The output-side equivalent in :meth:`OutputCollector.emit` is more
     permissive (drops extras) because projection-pushdown explicitly
@@ -123,7 +124,12 @@ def _coerce_input_batch(batch: pa.RecordBatch, target_schema: pa.Schema) -> pa.R
     if set(batch_names) != set(target_names):
         raise TypeError(f"Input schema mismatch: expected {target_schema}, got {batch.schema}")
     if batch_names != target_names:
-        batch = batch.select(target_names)
+        try:
+            batch = batch.select(target_names)
+        except KeyError as exc:
+            # A declared name occurs more than once in the batch: as a set the
+            # names agree, but this is not the declared field set either.
+            raise TypeError(f"Input schema mismatch: expected {target_schema}, got {batch.schema}") from exc
     if batch.schema != target_schema:
         try:
             batch = batch.cast(target_schema)
